@@ -510,6 +510,44 @@ def gen_symm_block(rnd):
     return out
 
 
+def gen_tradeoff_block(rnd):
+    """Fragments with alternatives that trade one cost for another (gas / bytes / instruction count): a value that
+    can be duplicated or produced again (2-gas environment reads, zero pushes, one-byte and wide constants), a
+    constant that can be pushed or computed, redundant shuffling.  These are the blocks on which the accept/reject
+    decision has ties in the selected criterion and has to look at the others."""
+    out = []
+    h = 0
+    n = rnd.randrange(2, 5)
+    for _ in range(n):
+        r = rnd.random()
+        if r < 0.3:
+            x = [(rnd.choice(["ADDRESS", "CALLVALUE", "CALLER", "ORIGIN", "CALLDATASIZE", "CODESIZE", "GASPRICE",
+                               "RETURNDATASIZE", "MSIZE" if False else "CHAINID"]), None)]
+        elif r < 0.55:
+            x = [("PUSH", hexv(rnd.choice([0, 0, 1, 0x20, 0x40, 0xff])))]
+        elif r < 0.75:
+            x = [("PUSH", hexv(rnd.choice([0x100, 0xffff, (1 << 32) - 1, (1 << 160) - 1, (1 << 255), MASK])))]
+        else:
+            x = [("PUSH", hexv(rnd.choice([1, 2, 3]))), ("PUSH", hexv(rnd.choice([1, 2, 0x1f]))), (rnd.choice(["ADD", "MUL", "SHL"]), None)]
+        k = rnd.random()
+        if k < 0.6:
+            out += x + [("DUP1", None)]
+        elif k < 0.8:
+            out += x + x
+        else:
+            out += x + [("DUP1", None), ("DUP1", None)]
+            h += 1
+        h += 2
+    # consumers: stores / operations over the produced values, some values left on the stack
+    for _ in range(rnd.randrange(0, 3)):
+        if h >= 2:
+            out.append((rnd.choice(["MSTORE", "MSTORE8", "SSTORE", "ADD", "AND", "SUB", "POP"]), None))
+            h -= {"ADD": 1, "AND": 1, "SUB": 1, "POP": 1}.get(out[-1][0], 2)
+    if rnd.random() < 0.3 and h >= 2:
+        out.append(("SWAP%d" % rnd.randrange(1, min(h, 16)), None))
+    return out
+
+
 def gen_block(rnd, kind=None):
     kind = kind or rnd.choices(["rule", "grammar", "mem", "split", "deep", "dupterms", "symm"], [4, 3, 3, 1.5, 0.7, 1.0, 0.8])[0]
     if kind == "rule":
@@ -551,6 +589,8 @@ def gen_block(rnd, kind=None):
         return out or [("PUSH", "0")], kind
     if kind == "symm":
         return gen_symm_block(rnd), kind
+    if kind == "tradeoff":
+        return gen_tradeoff_block(rnd), kind
     if kind == "dupterms":
         # the same term computed twice (operands in the other order for commutative operations, repeated loads /
         # hashes / environment reads), then combined or stored: exercises the unification of duplicated instructions
